@@ -15,10 +15,14 @@ def main():
     checks = []
     claimed = set()
     for m in sorted(pkgutil.iter_modules(props.__path__), key=lambda m: m.name):
-        mod = importlib.import_module(f"vh.props.{m.name}")
+        try:
+            mod = importlib.import_module(f"vh.props.{m.name}")
+        except Exception as exc:
+            print(f"skipping vh.props.{m.name}: {exc}")
+            continue
         prop = getattr(mod, "PROP", None)
         entry = getattr(mod, "MANIFEST_ENTRY", None)
-        if prop is None or entry is None:
+        if prop is None or entry is None or prop.id not in core.claimed_ids():
             continue
         claimed.add(prop.id)
         checks.append({
